@@ -227,7 +227,7 @@ Allowed(a) == CASE a = "ci"  -> {"com", "idoc"}
 \* deco is a well-formed decoration of B
 WFDeco(B, deco) ==
   LET ps == Paths(B) IN
-  /\ \A p \in DOMAIN deco : \E i \in 1 .. Len(ps) : ps[i].p = p
+  /\ \A p \in DOMAIN deco : deco[p] # <<>> => \E i \in 1 .. Len(ps) : ps[i].p = p
   /\ \A i \in 1 .. Len(ps) :
        LET its == D(deco, ps[i].p) IN
        /\ \A j \in 1 .. Len(its) : its[j].t \in Allowed(ps[i].a)
